@@ -466,7 +466,7 @@ def bash_quote(s):
     return "'" + s.replace("'", "'\\''") + "'"
 
 
-def run_batch(text, name, beh, lines, wordbreaks, timeout=120):
+def run_batch(text, name, beh, lines, wordbreaks, timeout=300):
     """Compile the grammar with the real binary, source it into real bash, run all command lines.  Returns
     (compile result, per-line records [{invocations: [(k, argc, args...)], rc, reply: [...]}])."""
     d = tempfile.mkdtemp(prefix="vbash-", dir=proc.scratch_root())
